@@ -632,6 +632,14 @@ def bytes_method(I_, recv, name, args, kws, st, ctx, k, node):
     return iter_values(I_, args[0], st, ctx, got, node)
   if name in ("find", "count", "index", "isdigit", "isalpha", "split", "rsplit", "format", "zfill", "hex",
               "partition", "rpartition", "splitlines", "replace", "translate", "isspace"):
+    if I_.log_depth > 0:
+      if name in ("split", "rsplit", "splitlines", "partition", "rpartition"):
+        return k(st, st.alloc("list", list, [opaque_str(st, "logpart")]))
+      if name in ("find", "count", "index"):
+        return k(st, fresh_int("logn"))
+      if name in ("isdigit", "isalpha", "isspace"):
+        return k(st, fresh_bool("logb"))
+      return k(st, opaque_str(st, "logtxt"))
     raise Unsupported("text method %s on symbolic text at %s" % (name, where))
   if name == "__len__":
     return k(st, s.length())
